@@ -4,11 +4,11 @@ go 1.23
 
 require (
 	github.com/getkin/kin-openapi v0.38.0
+	github.com/ghodss/yaml v1.0.0
 	github.com/vkd/goag v0.0.0
 )
 
 require (
-	github.com/ghodss/yaml v1.0.0 // indirect
 	github.com/go-openapi/jsonpointer v0.19.5 // indirect
 	github.com/go-openapi/swag v0.19.5 // indirect
 	github.com/mailru/easyjson v0.0.0-20190626092158-b2ccc519800e // indirect
